@@ -95,6 +95,12 @@ NIL_WITH = T("u32", "Ty::NilU32", "if p.present(rng) { 1 + (vcore::gen::gen_int(
 NIL_FNS = T("u32", "Ty::NilU32", "if p.present(rng) { 1 + (vcore::gen::gen_int(rng, 31, false) as u32) } else { 0 }", lambda x: "View::U(*%s as u64)" % x,
             attrs=['encode_with = "dsupport::codecs::nilu32::encode"', 'decode_with = "dsupport::codecs::nilu32::decode"', 'is_nil = "dsupport::codecs::nilu32::is_nil"', 'nil = "dsupport::codecs::nilu32::nil"', 'cbor_len = "dsupport::codecs::nilu32::cbor_len"'], nilable=True)
 
+_TRI_GEN = "match rng.below(4) { 0 => dsupport::codecs::tri::Tri::Keep, 1 => dsupport::codecs::tri::Tri::Clear, _ => dsupport::codecs::tri::Tri::Set(vcore::gen::gen_int(rng, 8, false) as u8) }"
+_TRI_VIEW = lambda x: "match %s { dsupport::codecs::tri::Tri::Keep => View::U(0), dsupport::codecs::tri::Tri::Clear => View::U(1), dsupport::codecs::tri::Tri::Set(n) => View::U(*n as u64 + 2) }" % x
+TRI_WITH = T("dsupport::codecs::tri::Tri", "Ty::Tri", _TRI_GEN, _TRI_VIEW, attrs=['with = "dsupport::codecs::tri"', "has_nil"], nilable=True)
+TRI_FNS = T("dsupport::codecs::tri::Tri", "Ty::Tri", _TRI_GEN, _TRI_VIEW,
+            attrs=['encode_with = "dsupport::codecs::tri::encode"', 'decode_with = "dsupport::codecs::tri::decode"', 'is_nil = "dsupport::codecs::tri::is_nil"', 'nil = "dsupport::codecs::tri::nil"', 'cbor_len = "dsupport::codecs::tri::cbor_len"'], nilable=True)
+
 for _t in (STR_REF, COW_STR, BYTESLICE_REF, COW_BYTESLICE, BYTES_REF, BYTES_COW, BYTES_OPT_REF):
     _t.free_b = True   # implicit borrowing (&str, &[u8], &ByteSlice, Option of those) or Cow (owned when not #[b])
 
@@ -469,6 +475,7 @@ def gen_enum(rnd, name, pool):
         n = rnd.choice([1, 2, 3, 5])
         idx = pick_indices(rnd, n)
         td.variants = [("V%d" % k, idx[k], "unit", None, None, []) for k in range(n)]
+        rnd.shuffle(td.variants)
         return finish(td)
     td.encoding = rnd.choice([None, "array", "map"])
     td.tag = rnd.choice(TAGS) if rnd.random() < 0.2 else None
@@ -482,6 +489,7 @@ def gen_enum(rnd, name, pool):
         td.variants.append(("V%d" % k, idx[k], shape, venc, vtag, fields))
     if rnd.random() < 0.12:
         make_generic(rnd, td)
+    rnd.shuffle(td.variants)   # declaration order is independent of the index order
     return finish(td)
 
 
@@ -586,6 +594,20 @@ def special_types():
         td.fields = [Field("a", 0, U8), Field("b", 1, with_attrs(opt(U16), dec_only)), Field("c", 2, with_attrs(alias(opt(U16)), dec_only)), Field("d", 3, with_attrs(opt(U16), enc_only)),
                      Field("e", 4, with_attrs(alias(opt(U16)), enc_only)), Field("g", 7, opt(U8)), Field("h", 6, with_attrs(opt(U16), enc_nil), tag=9)]
         out.append(finish(td))
+    # a nil-aware codec whose nil value is *not* written as null while one of its non-nil values is:
+    # how such a nil is written in the middle of an array is the codec's business (not the
+    # documented null), so these types only run the format-independent checks
+    for name, enc in [("TriArr", "array"), ("TriMap", "map")]:
+        td = TypeDef(name)
+        td.encoding = enc
+        td.len_only = True
+        td.fields = [Field("a", 0, U8), Field("t", 1, TRI_WITH), Field("b", 2, opt(U8)), Field("u", 3, TRI_FNS), Field("c", 5, opt(STRING)), Field("v", 4, TRI_WITH, tag=9)]
+        out.append(finish(td))
+    td = TypeDef("TriEnum")
+    td.kind = "enum"
+    td.len_only = True
+    td.variants = [("A", 0, "named", None, None, [Field("t", 0, TRI_WITH), Field("x", 1, opt(U8))]), ("B", 1, "tuple", "map", None, [Field("x", 0, U8), Field("t", 1, TRI_FNS)])]
+    out.append(finish(td))
     # Tagged<N, T> as a field type, also around nil-capable types and in front of present fields
     td = TypeDef("TaggedTy")
     td.fields = [Field("a", 0, tagged(7, opt(U8))), Field("b", 1, U8), Field("c", 2, tagged(24, opt(STRING))), Field("d", 3, tagged(1000, U16), tag=5), Field("e", 5, opt(tagged(9, I32)))]
